@@ -1,300 +1,198 @@
-(* C09 for AdeleOrderComponent (specific/adele.py).  OrderSword.resolving bounds the ticks of one call by
-   maximum_elapsed = int(time_left // interval), computed from the time_left at the START of the call; a
-   sword whose first tick is due immediately (counter 0 right after `use`) has one more tick due over its
-   life than this bound allows in a single call, so the number of ticks depends on how the time is chunked.
+(* C09 for the entity OrderSword (specific/adele.py), as repaired by 4d5f5f0 after this check found that the
+   ticks of AdeleOrderComponent.elapse depended on how the time was chunked:
 
-   order_chunk_refuted: the witness (the shipped parameters of "오더 VI": interval 1020, lasting 45000, the
-   state right after an accepted use; 100 then 44800 gives 45 ticks, 44900 at once gives 44).
-   order_chunk_partial: the largest sub-statement found true: the cooldown and the remaining time of every
-   surviving sword (hence the views) never depend on the chunking; the interval counters and the ticks agree
-   as well whenever no sword runs into the bound in any of the three elapses. *)
-From Coq Require Import ZArith List Bool Lia Permutation.
+       def resolving(self, time, max_sword_count):
+           self._set_running_swords(self.running_swords, max_sword_count)      # leave before ticking
+           for each sword (counter, time_left):
+               time_left -= time; counter -= time
+               while counter <= 0 and counter < time_left:                     # tick while alive
+                   counter += self.interval; yield 1
+               keep the sword if time_left > 0
+           self._set_running_swords(result, max_sword_count)
+
+   sw_enough / sw_resolve_ok_true: with a positive interval the count-based fuel of the model suffices (the executable
+   reducer never answers `out of fuel`).  sw_resolve_add: resolving a then b = resolving a+b, for EVERY sword list (no
+   capacity, sortedness or counter hypothesis; only interval > 0): same surviving swords with the same counters, tick
+   counts add.  The component-level theorem is chunk_order / xelapse_chunk in SpecAdeleChunk.v. *)
+From Coq Require Import ZArith List Bool Lia.
 From V.Model Require Import Comp SpecAdele.
-From V.Proofs Require Import CompChunk SpecAdeleReject SpecAdeleChunk.
 Import ListNotations.
 Open Scope Z_scope.
 
+(* ------------------------------------------------------------ the loop *)
+Lemma sw_unfold f I c l :
+  sw_loop f I c l =
+  if (c <=? 0) && (c <? l) then
+    match f with O => None | S f' => match sw_loop f' I (c + I) l with Some (c', n) => Some (c', S n) | None => None end end
+  else Some (c, O).
+Proof. destruct f; reflexivity. Qed.
+
+Lemma sw_S : forall f I c l r, sw_loop f I c l = Some r -> sw_loop (S f) I c l = Some r.
+Proof.
+  induction f as [|f IH]; intros I c l r H; rewrite sw_unfold in H; rewrite sw_unfold;
+    destruct ((c <=? 0) && (c <? l)); try discriminate; try exact H.
+  destruct (sw_loop f I (c + I) l) as [[c' n]|] eqn:E; [|discriminate]. rewrite (IH _ _ _ _ E). exact H.
+Qed.
+Lemma sw_mono f f' I c l r : (f <= f')%nat -> sw_loop f I c l = Some r -> sw_loop f' I c l = Some r.
+Proof. intros L; induction L; intros H0; [exact H0|]. apply sw_S. auto. Qed.
+
+(* the fuel of the model: one unit per counter value c, c + I, ... that is <= 0 *)
+Lemma sw_fuel_pos I c : 0 < I -> sw_fuel I c = Z.to_nat ((- c) / I + 2).
+Proof. intros HI. unfold sw_fuel. replace (0 <? I) with true by (symmetry; apply Z.ltb_lt; exact HI). reflexivity. Qed.
+
+Lemma sw_fuel_step I c : 0 < I -> c <= 0 -> sw_fuel I c = S (sw_fuel I (c + I)).
+Proof.
+  intros HI Hc. rewrite !sw_fuel_pos by exact HI.
+  replace (- (c + I)) with (- c + (-1) * I) by lia. rewrite Z.div_add by lia.
+  assert (0 <= (- c) / I) by (apply Z.div_pos; lia).
+  rewrite <- Z2Nat.inj_succ by lia. f_equal. lia.
+Qed.
+
+Lemma sw_enough I : 0 < I -> forall f c l, (sw_fuel I c <= f)%nat -> exists r, sw_loop f I c l = Some r.
+Proof.
+  intros HI. induction f as [|f IH]; intros c l F; rewrite sw_unfold;
+    destruct ((c <=? 0) && (c <? l)) eqn:G; try (eexists; reflexivity);
+    apply andb_prop in G; destruct G as [G _]; apply Z.leb_le in G; rewrite (sw_fuel_step I c HI G) in F.
+  - lia.
+  - destruct (IH (c + I) l ltac:(lia)) as [[c' n] E]. rewrite E. eexists. reflexivity.
+Qed.
+
+(* elapsing d more first: the loop passes through the state in which it would have stopped *)
+Lemma sw_shift : forall f f' I c l d c1 n1 c2 n2, 0 <= d ->
+  sw_loop f I c l = Some (c1, n1) -> sw_loop f' I (c1 - d) (l - d) = Some (c2, n2) ->
+  sw_loop (f + f') I (c - d) (l - d) = Some (c2, (n1 + n2)%nat).
+Proof.
+  induction f as [|f IH]; intros f' I c l d c1 n1 c2 n2 Hd H H'; rewrite sw_unfold in H.
+  - destruct ((c <=? 0) && (c <? l)); [discriminate|]. injection H as <- <-. exact H'.
+  - destruct ((c <=? 0) && (c <? l)) eqn:G.
+    + destruct (sw_loop f I (c + I) l) as [[c0 n0]|] eqn:E; [|discriminate]. injection H as <- <-.
+      rewrite sw_unfold. apply andb_prop in G. destruct G as [G1 G2]. apply Z.leb_le in G1. apply Z.ltb_lt in G2.
+      replace ((c - d <=? 0) && (c - d <? l - d)) with true
+        by (symmetry; apply andb_true_intro; split; [apply Z.leb_le|apply Z.ltb_lt]; lia).
+      cbn [Nat.add]. replace (c - d + I) with (c + I - d) by lia.
+      rewrite (IH f' I (c + I) l d c0 n0 c2 n2 Hd E H'). reflexivity.
+    + injection H as <- <-. eapply sw_mono; [|exact H']. lia.
+Qed.
+
+Lemma sw_det f f' I c l r r' : sw_loop f I c l = Some r -> sw_loop f' I c l = Some r' -> r = r'.
+Proof.
+  intros H H'. destruct (Nat.le_ge_cases f f') as [L|L].
+  - rewrite (sw_mono _ _ _ _ _ _ L H) in H'. congruence.
+  - rewrite (sw_mono _ _ _ _ _ _ L H') in H. congruence.
+Qed.
+
+(* where the loop stops its condition is false *)
+Lemma sw_stop : forall f I c l c' n, sw_loop f I c l = Some (c', n) -> (c' <=? 0) && (c' <? l) = false.
+Proof.
+  induction f as [|f IH]; intros I c l c' n H; rewrite sw_unfold in H; destruct ((c <=? 0) && (c <? l)) eqn:G; try discriminate.
+  - injection H as <- _. exact G.
+  - destruct (sw_loop f I (c + I) l) as [[c0 n0]|] eqn:E; [|discriminate]. injection H as <- _. apply (IH _ _ _ _ _ E).
+  - injection H as <- _. exact G.
+Qed.
+
 (* ------------------------------------------------------------ one sword *)
-Lemma sw_loop_spec I : 0 < I -> forall mx c c' n, sw_loop mx I c = (c', n) ->
-  c' = c + Z.of_nat n * I /\ (n <= mx)%nat /\ (n <> O -> c' - I <= 0) /\ (n = O -> c' = c) /\ ((n < mx)%nat -> 0 < c').
+Lemma sw_one_some I t c l : 0 < I ->
+  exists c' n, sw_loop (sw_fuel I (c - t)) I (c - t) (l - t) = Some (c', n) /\ sw_one I t (c, l) = ((c', l - t), n).
 Proof.
-  intros HI. induction mx as [|f IH]; intros c c' n H; cbn [sw_loop] in H.
-  - injection H as <- <-. repeat split; try lia.
-  - destruct (c <=? 0) eqn:E.
-    + destruct (sw_loop f I (c + I)) as [c'' n0] eqn:R. injection H as <- <-.
-      destruct (IH _ _ _ R) as (A & B & C0 & D & F). apply Z.leb_le in E. repeat split; try lia.
-      all: try (intros _; destruct n0; [rewrite (D eq_refl); lia|apply C0; discriminate]).
-      all: try (intros L; apply F; lia).
-    + injection H as <- <-. apply Z.leb_gt in E. repeat split; try lia.
+  intros HI. destruct (sw_enough I HI (sw_fuel I (c - t)) (c - t) (l - t) (Nat.le_refl _)) as [[c' n] E].
+  exists c', n. split; [exact E|]. unfold sw_one. rewrite E. reflexivity.
 Qed.
 
-Lemma sw_one_shape I t c l : exists c' n, sw_one I t (c, l) = ((c', l - t), n) /\ sw_loop (sw_cap I l) I (c - t) = (c', n).
-Proof. unfold sw_one. destruct (sw_loop _ I (c - t)) as [c' n]. do 2 eexists. split; reflexivity. Qed.
+Lemma sw_one_ok_true I t x : 0 < I -> sw_one_ok I t x = true.
+Proof. intros HI. destruct x as [c l]. destruct (sw_one_some I t c l HI) as (c' & n & E & _). unfold sw_one_ok. rewrite E. reflexivity. Qed.
 
-(* the number of due ticks is determined by the counter *)
-Lemma due_unique I c (n m : nat) : 0 < I ->
-  0 < c + Z.of_nat n * I -> (n <> O -> c + Z.of_nat n * I - I <= 0) ->
-  0 < c + Z.of_nat m * I -> (m <> O -> c + Z.of_nat m * I - I <= 0) -> n = m.
+(* a then b = a+b; a sword that expires in the first chunk does not tick later *)
+Lemma sw_one_add I a b c l : 0 < I -> 0 <= a -> 0 <= b ->
+  let '(y1, n1) := sw_one I a (c, l) in let '(y2, n2) := sw_one I b y1 in
+  sw_one I (a + b) (c, l) = (y2, (n1 + n2)%nat) /\ (snd y1 <= 0 -> n2 = O).
 Proof.
-  intros HI A1 A2 B1 B2.
-  destruct (Nat.lt_trichotomy n m) as [L|[E|L]]; [exfalso| exact E |exfalso].
-  - assert (X : Z.of_nat n * I <= (Z.of_nat m - 1) * I) by (apply Z.mul_le_mono_nonneg_r; lia).
-    specialize (B2 ltac:(lia)). lia.
-  - assert (X : Z.of_nat m * I <= (Z.of_nat n - 1) * I) by (apply Z.mul_le_mono_nonneg_r; lia).
-    specialize (A2 ltac:(lia)). lia.
+  intros HI Ha Hb.
+  destruct (sw_one_some I a c l HI) as (c1 & n1 & L1 & E1). rewrite E1.
+  destruct (sw_one_some I b c1 (l - a) HI) as (c2 & n2 & L2 & E2). rewrite E2.
+  destruct (sw_one_some I (a + b) c l HI) as (c3 & n3 & L3 & E3). rewrite E3.
+  pose proof (sw_shift _ _ I (c - a) (l - a) b c1 n1 c2 n2 Hb L1 L2) as X.
+  replace (c - a - b) with (c - (a + b)) in X by lia. replace (l - a - b) with (l - (a + b)) in * by lia.
+  pose proof (sw_det _ _ _ _ _ _ _ L3 X) as Y. injection Y as -> ->. split; [reflexivity|].
+  cbn [snd]. intros Hl. rewrite sw_unfold in L2.
+  pose proof (sw_stop _ _ _ _ _ _ L1) as STOP.
+  replace ((c1 - b <=? 0) && (c1 - b <? l - (a + b))) with false in L2.
+  - injection L2 as _ <-. reflexivity.
+  - symmetry. apply andb_false_iff. apply andb_false_iff in STOP. destruct STOP as [S|S].
+    + apply Z.leb_gt in S. right. apply Z.ltb_ge. lia.
+    + apply Z.ltb_ge in S. right. apply Z.ltb_ge. lia.
 Qed.
-
-Definition uncapped (I t : Z) (x : sword) : Prop := 0 < fst (fst (sw_one I t x)).
-
-Lemma sw_one_add I a b c l c1 n1 c2 n2 c3 n3 : 0 < I -> 0 <= a -> 0 <= b ->
-  sw_one I a (c, l) = ((c1, l - a), n1) -> sw_one I b (c1, l - a) = ((c2, l - a - b), n2) ->
-  sw_one I (a + b) (c, l) = ((c3, l - (a + b)), n3) ->
-  0 < c1 -> 0 < c2 -> 0 < c3 -> c2 = c3 /\ (n1 + n2)%nat = n3.
-Proof.
-  intros HI Ha Hb H1 H2 H3 P1 P2 P3.
-  destruct (sw_one_shape I a c l) as (x1 & y1 & E1 & L1). rewrite E1 in H1. injection H1 as -> ->.
-  destruct (sw_one_shape I b c1 (l - a)) as (x2 & y2 & E2 & L2). rewrite E2 in H2. injection H2 as -> ->.
-  destruct (sw_one_shape I (a + b) c l) as (x3 & y3 & E3 & L3). rewrite E3 in H3. injection H3 as -> ->.
-  destruct (sw_loop_spec I HI _ _ _ _ L1) as (A1 & _ & C1 & D1 & _).
-  destruct (sw_loop_spec I HI _ _ _ _ L2) as (A2 & _ & C2 & D2 & _).
-  destruct (sw_loop_spec I HI _ _ _ _ L3) as (A3 & _ & C3 & D3 & _).
-  assert (N : (n1 + n2)%nat = n3).
-  { apply (due_unique I (c - (a + b))); try assumption; try lia. }
-  split; [|exact N]. subst n3. rewrite Nat2Z.inj_add in A3. lia.
-Qed.
-
-(* a sword that expires in the first chunk: all its remaining ticks are emitted there *)
-Lemma sw_one_dropped I a b c l c1 n1 c3 n3 : 0 < I -> c <= I -> 0 <= a -> 0 <= b -> l - a <= 0 ->
-  sw_one I a (c, l) = ((c1, l - a), n1) -> sw_one I (a + b) (c, l) = ((c3, l - (a + b)), n3) ->
-  0 < c1 -> 0 < c3 -> n1 = n3.
-Proof.
-  intros HI Hc Ha Hb Hl H1 H3 P1 P3.
-  destruct (sw_one_shape I a c l) as (x1 & y1 & E1 & L1). rewrite E1 in H1. injection H1 as -> ->.
-  destruct (sw_one_shape I (a + b) c l) as (x3 & y3 & E3 & L3). rewrite E3 in H3. injection H3 as -> ->.
-  destruct (sw_loop_spec I HI _ _ _ _ L1) as (A1 & _ & C1 & D1 & _).
-  destruct (sw_loop_spec I HI _ _ _ _ L3) as (A3 & B3 & C3 & D3 & _).
-  (* n3 <= l / I <= n1 <= n3 *)
-  assert (LE : (n1 <= n3)%nat).
-  { destruct (Nat.le_gt_cases n1 n3) as [|G]; [assumption|exfalso].
-    assert (X : Z.of_nat n3 * I <= (Z.of_nat n1 - 1) * I) by (apply Z.mul_le_mono_nonneg_r; lia).
-    specialize (C1 ltac:(lia)). lia. }
-  assert (GE : (n3 <= n1)%nat).
-  { unfold sw_cap in B3. destruct (Z.max_spec 0 (l / I)) as [[M1 M2]|[M1 M2]]; rewrite M2 in B3.
-    - pose proof (Z.mul_div_le l I HI) as D. assert (Q : l / I <= Z.of_nat n1).
-      { destruct (Z.le_gt_cases (l / I) (Z.of_nat n1)) as [|G]; [assumption|exfalso].
-        assert (X : (Z.of_nat n1 + 1) * I <= (l / I) * I) by (apply Z.mul_le_mono_nonneg_r; lia). lia. }
-      lia.
-    - cbn in B3. lia. }
-  lia.
-Qed.
-
-(* ------------------------------------------------------------ the sword list *)
-Lemma sw_resolve_cons I t x r :
-  sw_resolve I t (x :: r) =
-  ((if 0 <? snd (fst (sw_one I t x)) then [fst (sw_one I t x)] else []) ++ fst (sw_resolve I t r),
-   (snd (sw_one I t x) + snd (sw_resolve I t r))%nat).
-Proof. cbn [sw_resolve]. destruct (sw_one I t x) as [y n]. destruct (sw_resolve I t r) as [r' m]. reflexivity. Qed.
 
 Lemma sw_one_snd I t c l : snd (fst (sw_one I t (c, l))) = l - t.
-Proof. destruct (sw_one_shape I t c l) as (c' & n & E & _). rewrite E. reflexivity. Qed.
+Proof. unfold sw_one. destruct (sw_loop _ _ _ _) as [[c' n]|]; reflexivity. Qed.
 
-Lemma sw_resolve_add I a b l : 0 < I -> 0 <= a -> 0 <= b ->
-  Forall (fun x => fst x <= I) l ->
-  Forall (uncapped I a) l -> Forall (uncapped I b) (fst (sw_resolve I a l)) -> Forall (uncapped I (a + b)) l ->
-  fst (sw_resolve I b (fst (sw_resolve I a l))) = fst (sw_resolve I (a + b) l) /\
-  (snd (sw_resolve I a l) + snd (sw_resolve I b (fst (sw_resolve I a l))))%nat = snd (sw_resolve I (a + b) l).
+(* ------------------------------------------------------------ the sword list *)
+Lemma sw_map_cons I t x r :
+  sw_map I t (x :: r) =
+  ((if 0 <? snd (fst (sw_one I t x)) then [fst (sw_one I t x)] else []) ++ fst (sw_map I t r),
+   (snd (sw_one I t x) + snd (sw_map I t r))%nat).
+Proof. cbn [sw_map]. destruct (sw_one I t x) as [y n]. destruct (sw_map I t r) as [r' m]. reflexivity. Qed.
+
+Lemma sw_map_add I a b l : 0 < I -> 0 <= a -> 0 <= b ->
+  fst (sw_map I b (fst (sw_map I a l))) = fst (sw_map I (a + b) l) /\
+  (snd (sw_map I a l) + snd (sw_map I b (fst (sw_map I a l))))%nat = snd (sw_map I (a + b) l).
 Proof.
-  intros HI Ha Hb. induction l as [|[c tl] r IH]; intros Hc U1 U2 U3.
-  - split; reflexivity.
-  - inversion Hc as [|? ? Hc1 Hc2]; subst. inversion U1 as [|? ? U11 U12]; subst. inversion U3 as [|? ? U31 U32]; subst.
-    rewrite (sw_resolve_cons I a) in U2 |- *. rewrite (sw_resolve_cons I (a + b)). cbn [fst snd] in *.
-    unfold uncapped in U11, U31.
-    destruct (sw_one_shape I a c tl) as (c1 & n1 & E1 & _). destruct (sw_one_shape I (a + b) c tl) as (c3 & n3 & E3 & _).
-    rewrite E1 in *. rewrite E3 in *. cbn [fst snd] in *.
-    destruct (0 <? tl - a) eqn:S1.
-    + (* survives the first chunk *)
-      cbn [app] in U2 |- *. inversion U2 as [|? ? U21 U22]; subst. specialize (IH Hc2 U12 U22 U32). destruct IH as [IH1 IH2].
-      rewrite (sw_resolve_cons I b). cbn [fst snd]. unfold uncapped in U21.
-      destruct (sw_one_shape I b c1 (tl - a)) as (c2 & n2 & E2 & _). rewrite E2 in *. cbn [fst snd] in *.
-      destruct (sw_one_add I a b c tl c1 n1 c2 n2 c3 n3 HI Ha Hb E1 E2 E3 U11 U21 U31) as [-> <-].
-      replace (tl - a - b) with (tl - (a + b)) by lia. rewrite IH1. split; [reflexivity|]. lia.
-    + (* expires in the first chunk *)
-      cbn [app] in U2 |- *. specialize (IH Hc2 U12 U2 U32). destruct IH as [IH1 IH2].
-      apply Z.ltb_ge in S1. replace (0 <? tl - (a + b)) with false by (symmetry; apply Z.ltb_ge; lia).
-      cbn [app]. rewrite (sw_one_dropped I a b c tl c1 n1 c3 n3 HI Hc1 Ha Hb S1 E1 E3 U11 U31).
-      split; [exact IH1|]. lia.
+  intros HI Ha Hb. induction l as [|[c tl] r [IH1 IH2]]; [split; reflexivity|].
+  rewrite (sw_map_cons I a), (sw_map_cons I (a + b)). cbn [fst snd].
+  pose proof (sw_one_add I a b c tl HI Ha Hb) as X.
+  destruct (sw_one I a (c, tl)) as [y1 n1] eqn:E1. destruct (sw_one I b y1) as [y2 n2] eqn:E2. destruct X as [X D].
+  rewrite X. cbn [fst snd].
+  assert (S1 : snd y1 = tl - a) by (rewrite <- (sw_one_snd I a c tl), E1; reflexivity).
+  assert (S2 : snd y2 = tl - (a + b)) by (rewrite <- (sw_one_snd I (a + b) c tl), X; reflexivity).
+  destruct (0 <? snd y1) eqn:G1.
+  - cbn [app]. rewrite (sw_map_cons I b). cbn [fst snd]. rewrite E2. cbn [fst snd]. rewrite IH1. split; [reflexivity|]. lia.
+  - cbn [app]. apply Z.ltb_ge in G1. rewrite (D G1). replace (0 <? snd y2) with false by (symmetry; apply Z.ltb_ge; lia).
+    cbn [app]. split; [exact IH1|]. lia.
 Qed.
 
-(* remaining times never depend on the chunking *)
-Definition age_tl (t : Z) (L : list Z) : list Z := filter (fun x => 0 <? x) (map (fun x => x - t) L).
-Lemma sw_resolve_tls I t l : map snd (fst (sw_resolve I t l)) = age_tl t (map snd l).
-Proof.
-  induction l as [|[c tl] r IH]; [reflexivity|]. rewrite sw_resolve_cons. cbn [fst snd map]. unfold age_tl in *. cbn [map filter].
-  rewrite sw_one_snd. rewrite map_app.
-  destruct (0 <? tl - t); cbn [map app]; rewrite ?sw_one_snd; [f_equal|]; exact IH.
-Qed.
-Lemma age_tl_add a b L : 0 <= b -> age_tl b (age_tl a L) = age_tl (a + b) L.
-Proof.
-  intros Hb. unfold age_tl. induction L as [|x L IH]; [reflexivity|]. cbn [map filter].
-  destruct (0 <? x - a) eqn:E1; cbn [map filter]; rewrite IH.
-  - replace (x - a - b) with (x - (a + b)) by lia. reflexivity.
-  - apply Z.ltb_ge in E1. replace (0 <? x - (a + b)) with false by (symmetry; apply Z.ltb_ge; lia). reflexivity.
-Qed.
+Lemma sw_map_len I t l : (length (fst (sw_map I t l)) <= length l)%nat.
+Proof. induction l as [|x r IH]; [cbn; lia|]. rewrite sw_map_cons. cbn [fst]. rewrite app_length. destruct (0 <? _); cbn [length]; lia. Qed.
 
+(* ------------------------------------------------------------ the capacity *)
 Lemma sw_trunc_id m l : 2 * Z.of_nat (length l) <= m -> sw_trunc m l = l.
 Proof. destruct l; [reflexivity|]. intros H. cbn [sw_trunc]. replace (m <? _) with false by (symmetry; apply Z.ltb_ge; exact H). reflexivity. Qed.
 Lemma sw_trunc_cap m l : 0 <= m -> 2 * Z.of_nat (length (sw_trunc m l)) <= m.
 Proof.
   intros Hm. induction l as [|x r IH]; [cbn; lia|]. cbn [sw_trunc]. destruct (m <? _) eqn:E; [exact IH|]. apply Z.ltb_ge in E. exact E.
 Qed.
-Lemma sw_trunc_forall (Q : sword -> Prop) m l : Forall Q l -> Forall Q (sw_trunc m l).
-Proof. induction 1 as [|x r Hx Hr IH]; [constructor|]. cbn [sw_trunc]. destruct (m <? _); [exact IH|constructor; assumption]. Qed.
-Lemma sw_resolve_len I t l : (length (fst (sw_resolve I t l)) <= length l)%nat.
-Proof. induction l as [|x r IH]; [cbn; lia|]. rewrite sw_resolve_cons. cbn [fst]. rewrite app_length. destruct (0 <? _); cbn [length]; lia. Qed.
 
-Lemma sw_time_left_tls l : sw_time_left l = last (map snd l) 0.
+(* a list no longer than an already truncated one is not truncated again *)
+Lemma sw_trunc_sub mx l r : (length r <= length (sw_trunc mx l))%nat -> sw_trunc mx r = r.
 Proof.
-  unfold sw_time_left. induction l as [|x r IH]; [reflexivity|]. destruct r as [|y r']; [reflexivity|].
-  change (last (x :: y :: r') (0, 0)) with (last (y :: r') (0, 0)). rewrite IH. reflexivity.
+  intros H. destruct (sw_trunc mx l) as [|x0 r0] eqn:E.
+  - destruct r; [reflexivity|cbn in H; lia].
+  - apply sw_trunc_id.
+    assert (C : 2 * Z.of_nat (length (x0 :: r0)) <= mx).
+    { clear H. revert E. induction l as [|y l IH]; cbn [sw_trunc]; [discriminate|].
+      destruct (mx <? 2 * Z.of_nat (length (y :: l))) eqn:G; [exact IH|]. intros E. rewrite <- E. apply Z.ltb_ge in G. exact G. }
+    lia.
 Qed.
 
-(* ------------------------------------------------------------ the component *)
-Definition order_inv (p : xpar) (s : xst) : Prop :=
-  0 < xp_swi p /\ Forall (fun x => fst x <= xp_swi p) (x_sw s).
-Definition within_capacity (p : xpar) (s : xst) : Prop := sword_count s <= max_sw p s.
-Definition tls (s : xst) : list Z := map snd (x_sw s).
-
-Lemma order_elapse_unfold p t s :
-  xreduce_spec Order XElapse p t s =
-  Some (setsw (setu s (set_cd (x_u s) (u_cd (x_u s) - t))) (sw_trunc (max_sw p s) (fst (sw_resolve (xp_swi p) t (x_sw s)))),
-        EElapsed t :: repeat (dealt (p_pd1 (xp p))) (snd (sw_resolve (xp_swi p) t (x_sw s)))).
-Proof. cbn [xreduce_spec xreduce]. destruct (sw_resolve _ _ _) as [sw n]. reflexivity. Qed.
-
-Theorem order_chunk_partial p a b s s1 e1 s2 e2 s3 e3 :
-  0 <= a -> 0 <= b -> within_capacity p s ->
-  xreduce_spec Order XElapse p a s = Some (s1, e1) -> xreduce_spec Order XElapse p b s1 = Some (s2, e2) ->
-  xreduce_spec Order XElapse p (a + b) s = Some (s3, e3) ->
-  (* (i) cooldown, remaining sword times and everything the elapse does not own *)
-  (x_u s2 = x_u s3 /\ tls s2 = tls s3 /\ x_gauge s2 = x_gauge s3 /\ x_rl s2 = x_rl s3 /\ x_pg s2 = x_pg s3 /\ x_rlad s2 = x_rlad s3) /\
-  (* (ii) counters and ticks, when the bound maximum_elapsed is not reached *)
-  (order_inv p s -> Forall (uncapped (xp_swi p) a) (x_sw s) -> Forall (uncapped (xp_swi p) b) (x_sw s1) ->
-   Forall (uncapped (xp_swi p) (a + b)) (x_sw s) -> s2 = s3 /\ dealts (e1 ++ e2) = dealts e3).
+(* ------------------------------------------------------------ OrderSword.resolving *)
+Theorem sw_resolve_add mx I a b l : 0 < I -> 0 <= a -> 0 <= b ->
+  fst (sw_resolve mx I b (fst (sw_resolve mx I a l))) = fst (sw_resolve mx I (a + b) l) /\
+  (snd (sw_resolve mx I a l) + snd (sw_resolve mx I b (fst (sw_resolve mx I a l))))%nat = snd (sw_resolve mx I (a + b) l).
 Proof.
-  intros Ha Hb Cap H1 H2 H3. rewrite order_elapse_unfold in H1, H2, H3.
-  unfold within_capacity, sword_count in Cap.
-  set (I := xp_swi p) in *. set (M := max_sw p s) in *.
-  pose proof (sw_resolve_len I a (x_sw s)) as Len1. pose proof (sw_resolve_len I (a + b) (x_sw s)) as Len3.
-  rewrite (sw_trunc_id M (fst (sw_resolve I a (x_sw s)))) in H1 by lia.
-  rewrite (sw_trunc_id M (fst (sw_resolve I (a + b) (x_sw s)))) in H3 by lia.
-  injection H1 as <- <-. cbn [x_sw x_u setsw setu u_cd set_cd] in H2.
-  assert (M1 : max_sw p (setsw (setu s (set_cd (x_u s) (u_cd (x_u s) - a))) (fst (sw_resolve I a (x_sw s)))) = M) by reflexivity.
-  rewrite M1 in H2.
-  pose proof (sw_resolve_len I b (fst (sw_resolve I a (x_sw s)))) as Len2.
-  rewrite sw_trunc_id in H2 by lia.
-  injection H2 as <- <-; injection H3 as <- <-. split.
-  - unfold tls. cbn [x_u x_sw x_gauge x_rl x_rlad x_pg setsw setu]. repeat split.
-    + ust_eq.
-    + rewrite !sw_resolve_tls. apply age_tl_add. exact Hb.
-  - intros [HI Hc] U1 U2 U3. cbn [x_sw setsw] in U2.
-    destruct (sw_resolve_add I a b (x_sw s) HI Ha Hb Hc U1 U2 U3) as [E N]. split.
-    + apply xst_ext; cbn [x_u x_sw x_gauge x_rl x_rlad x_pg setsw setu]; try reflexivity; [ust_eq|exact E].
-    + rewrite dealts_app, !dealts_elapsed, repeat_add, N. reflexivity.
+  intros HI Ha Hb. unfold sw_resolve. set (l0 := sw_trunc mx l).
+  destruct (sw_map_add I a b l0 HI Ha Hb) as [M1 M2].
+  pose proof (sw_map_len I a l0) as L1. pose proof (sw_map_len I (a + b) l0) as L3.
+  destruct (sw_map I a l0) as [r1 n1] eqn:E1. cbn [fst snd] in *.
+  rewrite (sw_trunc_sub mx l r1 L1). cbn [fst snd]. rewrite (sw_trunc_sub mx l r1 L1).
+  pose proof (sw_map_len I b r1) as L2.
+  destruct (sw_map I b r1) as [r2 n2] eqn:E2. cbn [fst snd] in *.
+  destruct (sw_map I (a + b) l0) as [r3 n3] eqn:E3. cbn [fst snd] in *.
+  subst r3 n3. split; [|reflexivity].
+  rewrite (sw_trunc_sub mx l r2) by (fold l0; lia). reflexivity.
 Qed.
 
-(* hence the views agree whatever the chunking (within capacity) *)
-Corollary order_chunk_views p a b s s1 e1 s2 e2 s3 e3 :
-  0 <= a -> 0 <= b -> within_capacity p s ->
-  xreduce_spec Order XElapse p a s = Some (s1, e1) -> xreduce_spec Order XElapse p b s1 = Some (s2, e2) ->
-  xreduce_spec Order XElapse p (a + b) s = Some (s3, e3) ->
-  xview_validity Order p s2 = xview_validity Order p s3 /\ xview_running Order p s2 = xview_running Order p s3 /\
-  xview_buff Order p s2 = xview_buff Order p s3.
-Proof.
-  intros Ha Hb Cap H1 H2 H3.
-  destruct (order_chunk_partial p a b s s1 e1 s2 e2 s3 e3 Ha Hb Cap H1 H2 H3) as [(U & T & G & _) _].
-  cbn [xview_validity xview_running xview_buff]. unfold order_valid, sword_count. rewrite U, G, !sw_time_left_tls.
-  unfold tls in T. rewrite T.
-  assert (LL : length (x_sw s2) = length (x_sw s3)).
-  { apply (f_equal (@length Z)) in T. rewrite !map_length in T. exact T. }
-  repeat split. do 5 f_equal. exact LL.
-Qed.
+(* the executable reducer never runs out of fuel when the interval is positive *)
+Lemma sw_resolve_ok_true mx I t l : 0 < I -> sw_resolve_ok mx I t l = true.
+Proof. intros HI. unfold sw_resolve_ok. apply forallb_forall. intros x _. apply sw_one_ok_true. exact HI. Qed.
 
-(* the invariants: preserved by the two reducers of the class; capacity is re-established by each of them *)
-Lemma order_inv_preserved m p t s s' es :
-  order_inv p s -> 0 <= t -> xreduce_spec Order m p t s = Some (s', es) -> order_inv p s'.
-Proof.
-  intros [HI Hc] Ht H. split; [exact HI|].
-  destruct m; try discriminate.
-  - (* use *)
-    cbn [xreduce_spec xreduce] in H. destruct (negb _); injection H as <- <-; [exact Hc|]. cbn [x_sw setsw setu].
-    apply sw_trunc_forall. apply Forall_app. split; [exact Hc|]. repeat constructor. cbn. lia.
-  - (* elapse *)
-    rewrite order_elapse_unfold in H. injection H as <- <-. cbn [x_sw setsw]. apply sw_trunc_forall.
-    clear -HI Hc Ht. induction (x_sw s) as [|[c tl] r IH]; [constructor|]. inversion Hc as [|? ? Hc1 Hc2]; subst.
-    rewrite sw_resolve_cons. cbn [fst]. apply Forall_app. split; [|apply IH; exact Hc2].
-    destruct (0 <? _); [|constructor]. repeat constructor.
-    destruct (sw_one_shape (xp_swi p) t c tl) as (c' & n & E & L). rewrite E. cbn [fst].
-    destruct (sw_loop_spec _ HI _ _ _ _ L) as (_ & _ & C1 & D1 & _). destruct n; [rewrite (D1 eq_refl); cbn in Hc1; lia|].
-    specialize (C1 ltac:(discriminate)). lia.
-Qed.
-
-Lemma order_capacity_established m p t s s' es :
-  0 <= max_sw p s -> xreduce_spec Order m p t s = Some (s', es) -> rejected es = false -> within_capacity p s'.
-Proof.
-  intros Hm H R. unfold within_capacity, sword_count. destruct m; try discriminate.
-  - cbn [xreduce_spec xreduce] in H. destruct (negb _); injection H as <- <-; [discriminate|].
-    cbn [x_sw setsw setu]. change (max_sw p (setsw _ _)) with (max_sw p s). apply sw_trunc_cap. exact Hm.
-  - rewrite order_elapse_unfold in H. injection H as <- <-. cbn [x_sw setsw].
-    change (max_sw p (setsw _ _)) with (max_sw p s). apply sw_trunc_cap. exact Hm.
-Qed.
-
-(* ------------------------------------------------------------ the witness *)
-Definition ord_par : par :=
-  mkPar false (0, 0) 0 500 0 45000 45000 0%nat [] (7, 2) (0, 0) (0, 0) (0, 0) 0 (0, 0) 0 0 0 0 (0, 0).
-Definition ord_p : xpar := mkXP ord_par 400 100 100 5 12 21 0 1020 6 8 (0, 0) 0 999999999 1 0 0 0.
-Definition ord_s0 : xst := mkX x_u0 (PG.mk 1 [1] 0 0) 400 0 0 [].
-Definition ord_s : xst := mkX (set_cd x_u0 500) (PG.mk 1 [1] 0 0) 400 0 0 [(0, 45000)].
-
-Theorem order_chunk_refuted :
-  exists p s0 s s1 e1 s2 e2 s3 e3 a b,
-    xreduce_spec Order XUse p 0 s0 = Some (s, [dealt (p_pd1 (xp p)); EDelay 0]) /\
-    wf_x p s /\ order_inv p s /\ within_capacity p s /\ 0 <= a /\ 0 <= b /\
-    xreduce_spec Order XElapse p a s = Some (s1, e1) /\ xreduce_spec Order XElapse p b s1 = Some (s2, e2) /\
-    xreduce_spec Order XElapse p (a + b) s = Some (s3, e3) /\
-    length (dealts (e1 ++ e2)) = 45%nat /\ length (dealts e3) = 44%nat /\
-    ~ Permutation (dealts (e1 ++ e2)) (dealts e3) /\ x_sw s2 = [(1000, 100)] /\ x_sw s3 = [(-20, 100)].
-Proof.
-  exists ord_p, ord_s0, ord_s.
-  eexists. eexists. eexists. eexists. eexists. eexists. exists 100, 44800.
-  split; [vm_compute; reflexivity|].
-  split; [repeat split; cbn; try lia; try discriminate; repeat constructor|].
-  split; [split; [reflexivity|repeat constructor; cbn; lia]|].
-  split; [vm_compute; discriminate|].
-  split; [lia|]. split; [lia|].
-  split; [vm_compute; reflexivity|]. split; [vm_compute; reflexivity|]. split; [vm_compute; reflexivity|].
-  split; [vm_compute; reflexivity|]. split; [vm_compute; reflexivity|].
-  split; [|split; vm_compute; reflexivity].
-  intros X. apply Permutation_length in X. vm_compute in X. discriminate.
-Qed.
-
-(* second facet: a sword beyond the capacity (the restore buff of another component has run out: capacity 8 -> 6)
-   is dropped only at the END of the next elapse call, after it has ticked for the whole call *)
-Definition ord_s4 : xst :=
-  mkX (set_cd x_u0 0) (PG.mk 1 [1] 0 0) 0 0 0 [(40, 43000); (540, 43500); (20, 44000); (520, 44500)].
-Theorem order_chunk_refuted_capacity :
-  exists p s s1 e1 s2 e2 s3 e3 a b,
-    order_inv p s /\ ~ within_capacity p s /\ 0 <= a /\ 0 <= b /\
-    xreduce_spec Order XElapse p a s = Some (s1, e1) /\ xreduce_spec Order XElapse p b s1 = Some (s2, e2) /\
-    xreduce_spec Order XElapse p (a + b) s = Some (s3, e3) /\
-    Forall (uncapped (xp_swi p) a) (x_sw s) /\ Forall (uncapped (xp_swi p) b) (x_sw s1) /\ Forall (uncapped (xp_swi p) (a + b)) (x_sw s) /\
-    length (dealts (e1 ++ e2)) = 31%nat /\ length (dealts e3) = 40%nat /\ s2 = s3.
-Proof.
-  exists ord_p, ord_s4. eexists. eexists. eexists. eexists. eexists. eexists. exists 100, 9900.
-  split; [split; [reflexivity|repeat constructor; cbn; lia]|].
-  split; [vm_compute; intros X; apply X; reflexivity|].
-  split; [lia|]. split; [lia|].
-  split; [vm_compute; reflexivity|]. split; [vm_compute; reflexivity|]. split; [vm_compute; reflexivity|].
-  split; [repeat constructor; vm_compute; reflexivity|].
-  split; [repeat constructor; vm_compute; reflexivity|].
-  split; [repeat constructor; vm_compute; reflexivity|].
-  split; [vm_compute; reflexivity|]. split; vm_compute; reflexivity.
-Qed.
+(* after resolving the sword list respects the capacity *)
+Lemma sw_resolve_cap mx I t l : 0 <= mx -> 2 * Z.of_nat (length (fst (sw_resolve mx I t l))) <= mx.
+Proof. intros Hm. unfold sw_resolve. destruct (sw_map I t (sw_trunc mx l)) as [r n]. cbn [fst]. apply sw_trunc_cap. exact Hm. Qed.
